@@ -43,10 +43,16 @@ func encode(ev string, job int) string {
 	if l == 'F' || l == 'R' {
 		return string([]byte{l, '-'})
 	}
-	if job < 0 || job > 9 {
-		return string([]byte{l, '?'})
+	// job index: 0-9, then A-Z (10..35), then a-z (36..61)
+	switch {
+	case job >= 0 && job <= 9:
+		return string([]byte{l, byte('0' + job)})
+	case job >= 10 && job <= 35:
+		return string([]byte{l, byte('A' + job - 10)})
+	case job >= 36 && job <= 61:
+		return string([]byte{l, byte('a' + job - 36)})
 	}
-	return string([]byte{l, byte('0' + job)})
+	return string([]byte{l, '?'})
 }
 
 const callerTid = -1
